@@ -95,7 +95,7 @@ func NormMsg(s string) string {
 func modeName(m int) string { return []string{"async", "sync", "np"}[m] }
 
 func replayOf(p Prog, cfg explore.Config, choices []int, observed string) map[string]interface{} {
-	return map[string]interface{}{"kind": "schedule", "program_name": p.Name, "program": p.Text, "mode": cfg.Mode, "monitor": cfg.Monitor, "choices": choices, "observed": observed}
+	return map[string]interface{}{"kind": "schedule", "program_name": p.Name, "program": p.Text, "mode": cfg.Mode, "monitor": cfg.Monitor, "delay_ms": cfg.DelayMS, "choices": choices, "observed": observed}
 }
 
 // confirm re-runs a schedule n times and reports whether the outcome key is identical every time.
@@ -204,6 +204,7 @@ func Replay(rp map[string]interface{}) {
 			}
 		}
 		mode := int(toF(r["mode"]))
+		c19SharedRE, _ = r["shared"].(bool)
 		h := runHistory(hist, mode, ch)
 		for i, o := range h.outcomes {
 			solo, _ := soloOutcome(hist[i], mode)
@@ -229,9 +230,10 @@ func Replay(rp map[string]interface{}) {
 			ch = append(ch, int(toF(x)))
 		}
 	}
-	ex := explore.RunOnce(text, explore.Config{Mode: mode, Monitor: mon}, ch, vsched.Options{}, false)
+	cfgR := explore.Config{Mode: mode, Monitor: mon, DelayMS: int(toF(r["delay_ms"]))}
+	ex := explore.RunOnce(text, cfgR, ch, vsched.Options{}, false)
 	fmt.Println("program     :\n" + text)
-	fmt.Println("config      :", explore.Config{Mode: mode, Monitor: mon}, " schedule:", ch)
+	fmt.Println("config      :", cfgR, " schedule:", ch)
 	fmt.Println("parse error :", ex.ParseErr)
 	fmt.Println("type error  :", ex.TypeErr)
 	fmt.Println("outcome     :", ex.OutcomeKey())
